@@ -141,6 +141,18 @@ func init() {
 						return r
 					}})
 			}
+			for _, order := range [][]string{{"as-text", "as-int8"}, {"as-int8", "as-text"}, {"as-text", "as-int8", "as-text"}} {
+				order := order
+				emit(explore.Case{Family: "per-connection-types", Size: len(order),
+					Desc: func() any {
+						return map[string]any{"sequential_connections_binding_one_oid_to": order, "via": "binary COPY-in"}
+					},
+					Run: func() explore.Result {
+						r := c14RunTypeMaps(order)
+						r.Outcome = "silent-neighbour"
+						return r
+					}})
+			}
 			corpus := c15Corpus()
 			for _, pred := range corpus {
 				for _, subj := range corpus {
